@@ -72,8 +72,15 @@ def rule_twins(ctx) -> None:
         ok = len(sites) == 1 and sites[0][0] == "hash_alg" and sites[0][1] == "padding.PSS.DIGEST_LENGTH"
         chk.decide(ok, "C08.pss-parameters", fn.qual, "RSA-PSS uses MGF1 with the message hash and a salt of digest length (the conventional parameter set an independent verifier assumes)",
                    f"PSS constructions reachable: {sites}", "padding.PSS(mgf=padding.MGF1(algorithm=hash_alg), salt_length=padding.PSS.DIGEST_LENGTH)", A.loc(KEYS, fn.node))
-        t = norm(fn.node)
-        ok = ("self.key.sign(data=data, padding=pad, algorithm=sign_alg)" in t) if fn is sg else ("self.key.verify(signature=signature, data=data, padding=pad, algorithm=sign_alg)" in t and "except InvalidSignature: return False" in t.replace("\n", " ").replace("    ", ""))
+        prim = [c for c in ast.walk(fn.node) if isinstance(c, ast.Call) and norm(c.func) == ("self.key.sign" if fn is sg else "self.key.verify")]
+        kw = {k.arg: norm(k.value) for k in prim[0].keywords} if len(prim) == 1 and not prim[0].args else {}
+        want_kw = {"data": "data", "padding": "pad", "algorithm": "sign_alg"}
+        if fn is vf:
+            want_kw["signature"] = "signature"
+        ok = kw == want_kw
+        if fn is vf:
+            hs = [h for h in ast.walk(fn.node) if isinstance(h, ast.ExceptHandler) and isinstance(h.type, ast.Name) and h.type.id == "InvalidSignature"]
+            ok = ok and len(hs) == 1 and [norm(x) for x in hs[0].body] == ["return False"]
         chk.decide(ok, "C08.sign-verify-twin", fn.qual + " primitive", "the built padding and algorithm are the ones handed to the primitive", "", "", A.loc(KEYS, fn.node))
     # ECC
     sg, vf = ctx.own(KEYS, "PrivateKeyEcc", "sign"), ctx.own(KEYS, "PublicKeyEcc", "verify_signature")
